@@ -143,6 +143,12 @@ func biasDriver(prop, focus string, nb func(c *caseCtx) int, tweak func(c *caseC
 			if cur := d.Trace.cur; cur != nil && cur.Name == focus {
 				c.violate("bias-failed:"+errClass(d.Err), fmt.Sprintf("bias #%d %s fails on an in-domain request instead of transforming the data: %s", cur.Pos, cur.Name, d.Err), M{"request": g.M})
 			}
+			if strings.HasPrefix(d.Err, "marshal:") || strings.Contains(d.Err, "unsupported value") {
+				// everything ran, but the outcome cannot be written as JSON (NaN / Inf): the trace is complete, so the bias
+				// under test is still judged on what it handed on
+				st := &eventStats{}
+				reportIssues(c, g, d, prop, checkTrace(g.method, d.Trace, st), st)
+			}
 			return
 		}
 		st := &eventStats{}
